@@ -214,6 +214,9 @@ def main(argv):
                 continue
             found, out = run_probe(pb)
             probe_results.append({'probe': pb, 'found_failing_input': found, 'output': out[-1500:]})
+            if not found and ('could not compile' in out or 'probe timed out' in out):
+                # a probe that does not build against this tree (an API it uses changed) or does not finish has looked at nothing
+                undecided.append('probe %s did not run: %s' % (pb, out.strip().split('\n')[-1][:160]))
 
     # evidence and replay files of runs against a scratch copy (sensitivity runs) never overwrite those of /repo
     evid_dir, replay_dir = EVID, REPLAY_OUT
